@@ -4,6 +4,8 @@ CONSTANTS
   StemLen = 2
   ExtServer = 4
   ExtClient = 3
+  KeyLens <- KeyLensThorough
+  ListLens <- ListLensThorough
 CONSTRAINT Emit
-INVARIANTS InvBatch InvPartition
+INVARIANTS InvBatch InvPartition InvLongCovers
 CHECK_DEADLOCK FALSE
